@@ -16,7 +16,7 @@ func init() {
 		Note:      "trusted: go/ssa CFG; the path fields are owned by the path goroutine (single writer), which C40's channel rules support"})
 	register(Property{ID: "C18", Level: "other", Run: runC18,
 		Technique: "static analysis: who-may-write on path.readers / path.stream, must-pass-through path conditions on addReaderPost and setNotAvailable (go/ssa)",
-		Text:      "path.readers is written only in initialize (make), addReaderPost (insert) and executeRemoveReader (delete); the insert is reached only with the author absent and not(maxReaders != 0 and len(readers) >= maxReaders); setNotAvailable removes and Close()s every reader on every path before it returns; path.stream is cleared only by setNotAvailable and set only by setAvailable. This is the counting and teardown skeleton; it does not decide reader behaviour after Close().",
+		Text:      "path.readers is written only in initialize (make) and addReaderPost (insert); a reader is removed from it (a delete instruction, or a call of a method that deletes the reader it is given, such as executeRemoveReader) only in answer to that reader's own remove request or by a teardown loop that also Close()s it; the insert is reached only with the author absent and not(maxReaders != 0 and len(readers) >= maxReaders); setNotAvailable removes and Close()s every reader on every path before it returns; path.stream is cleared only by setNotAvailable and set only by setAvailable. This is the counting and teardown skeleton; it does not decide reader behaviour after Close().",
 		Note:      "trusted: single-goroutine ownership of path fields"})
 	register(Property{ID: "C19", Level: "other", Run: runC19,
 		Technique: "static analysis: exactly-once typestate over all CFG paths of the request handlers (answer | hold | answering call), drain rules on the on-hold lists, on-demand state-transition table (go/ssa)",
@@ -54,6 +54,10 @@ func init() {
 			"len(pa.readers) >= pa.conf.MaxReaders {", "len(pa.readers) > pa.conf.MaxReaders {", "C18.limit"},
 		Mutant{"C18", "teardown-does-not-close-readers", "internal/core/path.go",
 			"		pa.executeRemoveReader(r)\n		r.Close()\n", "		pa.executeRemoveReader(r)\n", "C18.teardown"},
+		Mutant{"C18", "teardown-closes-readers-conditionally", "internal/core/path.go",
+			"		pa.executeRemoveReader(r)\n		r.Close()\n", "		pa.executeRemoveReader(r)\n		if pa.conf.SourceOnDemand {\n			r.Close()\n		}\n", "C18.teardown"},
+		Mutant{"C18", "reader-dropped-silently-on-reload", "internal/core/path.go",
+			"	pa.forwardManager.ReloadConf(newConf.Forward)\n", "	pa.forwardManager.ReloadConf(newConf.Forward)\n	if newConf.MaxReaders != 0 {\n		for r := range pa.readers {\n			if len(pa.readers) > newConf.MaxReaders {\n				pa.executeRemoveReader(r)\n			}\n		}\n	}\n", "C18.who_may_write"},
 		Mutant{"C18", "reader-inserted-on-hold-path", "internal/core/path.go",
 			"		pa.readerAddRequestsOnHold = append(pa.readerAddRequestsOnHold, req)\n		return\n	}\n\n	if pa.conf.HasOnDemandPublisher() {\n		if pa.onDemandPublisherState == pathOnDemandStateInitial {\n			pa.onDemandPublisherStart(req.AccessRequest.Query)\n		}\n		pa.readerAddRequestsOnHold",
 			"		pa.readers[req.Author] = struct{}{}\n		pa.readerAddRequestsOnHold = append(pa.readerAddRequestsOnHold, req)\n		return\n	}\n\n	if pa.conf.HasOnDemandPublisher() {\n		if pa.onDemandPublisherState == pathOnDemandStateInitial {\n			pa.onDemandPublisherStart(req.AccessRequest.Query)\n		}\n		pa.readerAddRequestsOnHold", "C18.who_may_write"},
@@ -307,7 +311,7 @@ func runC18(c *Ctx) {
 	if p == nil {
 		return
 	}
-	c.Explain = "E2: path.readers written only by initialize (make), addReaderPost (insert), executeRemoveReader (delete); path.stream cleared only in setNotAvailable, set only in setAvailable. E1 addReaderPost: insert ⇒ author absent ∧ (MaxReaders == 0 ∨ len(readers) < MaxReaders). E1 setNotAvailable: every return is after the reader loop has finished, and the loop body removes and closes the reader."
+	c.Explain = "E2: path.readers written only by initialize (make), addReaderPost (insert); every detach (delete(path.readers, k) directly or through a remover method = a path method that deletes one of its parameters, computed) has k = Author of the function's PathRemoveReaderReq or k = the ranged reader of a loop over path.readers that Close()s it in every iteration; path.stream cleared only in setNotAvailable, set only in setAvailable. E1 addReaderPost: insert ⇒ author absent ∧ (MaxReaders == 0 ∨ len(readers) < MaxReaders). E1 setNotAvailable: every return is after the reader loop has finished, and every path through one iteration of the loop detaches and closes the ranged reader."
 	c.Assume = []string{"path fields are touched only by the path goroutine"}
 
 	nW := 0
@@ -337,14 +341,48 @@ func runC18(c *Ctx) {
 					}
 				}
 			}
-			if isCallTo(i, "delete") {
-				a := callCommon(i).Args
-				if len(a) == 2 && strings.HasSuffix(desc(a[0]), ".readers") && isPathTyped(a[0]) {
-					nW++
-					c.Check("C18.who_may_write", "delete from path.readers in "+name, name == corePath+"executeRemoveReader", p.Pos(i.Pos()), "")
+		})
+	}
+	// removal of a reader: judged per (function, reader removed), wherever the
+	// delete instruction lives (prop_gen_c18.go)
+	removers := c18Removers(p)
+	var viaRemover []c18detach
+	for _, fn := range p.ModFuncs() {
+		if strings.HasSuffix(funcPkgPath(fn), "/internal/core") {
+			for _, d := range c18Detaches(fn, removers) {
+				if d.via != nil {
+					viaRemover = append(viaRemover, d)
 				}
 			}
-		})
+		}
+	}
+	for _, fn := range p.ModFuncs() {
+		if !strings.HasSuffix(funcPkgPath(fn), "/internal/core") {
+			continue
+		}
+		name := fnName(fn)
+		for _, d := range c18Detaches(fn, removers) {
+			if d.via != nil {
+				continue
+			}
+			nW++
+			ok, why := false, ""
+			if k, isRem := removers[fn]; isRem && stripConv(d.key) == ssa.Value(fn.Params[k]) {
+				// the function removes the reader it is given: its callers decide which
+				ok, why = true, "removes its parameter; callers:"
+				for _, cs := range viaRemover {
+					if cs.via != fn || removers[cs.fn] > 0 && stripConv(cs.key) == ssa.Value(cs.fn.Params[removers[cs.fn]]) {
+						continue // (a remover forwarding its own parameter is judged at its callers)
+					}
+					cok, cwhy := c18DetachAllowed(cs, removers)
+					ok = ok && cok
+					why += " " + fnName(cs.fn) + ": " + cwhy + ";"
+				}
+			} else {
+				ok, why = c18DetachAllowed(d, removers)
+			}
+			c.Check("C18.who_may_write", "delete from path.readers in "+name, ok, p.Pos(d.at.Pos()), why)
+		}
 	}
 	c.Floor("C18.who_may_write", nW, 5)
 
@@ -371,18 +409,26 @@ func runC18(c *Ctx) {
 	sna := pathFn(c, p, "setNotAvailable")
 	if sna != nil {
 		c.MustPass(p, sna, "C18.teardown", "return", anyReturn, F("next(range($0.readers))#0"))
-		rm, cl := false, false
-		var rmB, clB *ssa.BasicBlock
-		eachInstr(sna, func(i ssa.Instruction) {
-			if isCallTo(i, "(*core.path).executeRemoveReader") && desc(callCommon(i).Args[1]) == "next(range($0.readers))#1" {
-				rm, rmB = true, i.Block()
+		// the loop over the readers detaches and closes the ranged reader in every
+		// iteration (direct delete, a remover method or a new helper: prop_gen_c18.go)
+		var loop *rangeLoop
+		for _, l := range rangeLoopsOf(sna) {
+			if desc(l.Range.X) == "$0.readers" {
+				loop = l
 			}
-			if isCallTo(i, "(defs.Reader).Close") && desc(argN(callCommon(i), 0)) == "next(range($0.readers))#1" {
-				cl, clB = true, i.Block()
+		}
+		rmW, clW := "no range over $0.readers", "no range over $0.readers"
+		if loop != nil {
+			rmW, clW = "", ""
+			if w := c18EveryIteration(loop, c18DetachesReader(loop, removers)); w != nil {
+				rmW = w.String(p)
 			}
-		})
-		c.Check("C18.teardown", fnName(sna)+": every reader is detached (executeRemoveReader) in the loop", rm && rmB.Comment == "rangeiter.body", p.Pos(sna.Pos()), "")
-		c.Check("C18.teardown", fnName(sna)+": every reader is closed in the same loop iteration", cl && clB == rmB, p.Pos(sna.Pos()), "")
+			if w := c18EveryIteration(loop, c18ClosesReader(loop)); w != nil {
+				clW = w.String(p)
+			}
+		}
+		c.Check("C18.teardown", fnName(sna)+": every reader is detached (executeRemoveReader) in the loop", rmW == "", p.Pos(sna.Pos()), rmW)
+		c.Check("C18.teardown", fnName(sna)+": every reader is closed in the same loop iteration", clW == "", p.Pos(sna.Pos()), clW)
 		// the stream is cleared on all paths
 		c.MustPass(p, sna, "C18.teardown", "return", anyReturn, T("($0.stream == nil)"), F("($0.stream == nil)"))
 		w := (&Walker{Visit: func(i ssa.Instruction) int {
@@ -398,14 +444,11 @@ func runC18(c *Ctx) {
 		}, Edge: func(l Lit) bool { return !(l.Pos && l.Atom == "($0.stream == nil)") }}).Run(entry(sna))
 		c.Check("C18.teardown", fnName(sna)+": stream is nil on return (cleared unless already nil)", w == nil, p.Pos(sna.Pos()), w.String(p))
 	}
-	if er := pathFn(c, p, "executeRemoveReader"); er != nil {
-		ok := false
-		eachInstr(er, func(i ssa.Instruction) {
-			if isCallTo(i, "delete") && desc(callCommon(i).Args[0]) == "$0.readers" && desc(callCommon(i).Args[1]) == "$1" {
-				ok = true
-			}
-		})
-		c.Check("C18.teardown", fnName(er)+": deletes the given reader", ok, p.Pos(er.Pos()), "")
+	// a remover method, where one exists, deletes the reader it is given (when the
+	// helper was inlined into its callers there is nothing to say here: the callers'
+	// own deletes are judged above)
+	for er, k := range removers {
+		c.Check("C18.teardown", fnName(er)+": deletes the given reader", k > 0, p.Pos(er.Pos()), "")
 	}
 }
 
